@@ -35,14 +35,10 @@ def check_pattern(pat):
     fails = []
     x = z3.String("path")
     for kind, l1, l2 in (("lost", a, b), ("gained", b, a)):
-        s = z3.Solver()
-        s.set("timeout", TIMEOUT_MS[0])
-        s.add(z3.InRe(x, l1), z3.Not(z3.InRe(x, l2)))
-        r = s.check()
+        from pyvc import rxempty
+        verdict, w = rxempty.decide([(l1, True), (l2, False)], TIMEOUT_MS[0])
+        r = {"sat": z3.sat, "unsat": z3.unsat, "unknown": z3.unknown}[verdict]
         if r == z3.sat:
-            w = s.model()[x]
-            w = w.as_string() if w is not None else ""
-            w = re.sub(r"\\u\{([0-9a-fA-F]+)\}", lambda m: chr(int(m.group(1), 16)), w)
             before = dep5_re.fullmatch(w) is not None
             after = bool(item.matches(w))
             fails.append({"pattern": pat, "converted": converted, "kind": kind, "path": w, "dep5_matches": before,
